@@ -360,7 +360,12 @@ func newCtx(p *Program, prop, tier string) *Ctx {
 		Rules: map[string]string{}, FuncsSet: map[string]bool{}, seen: map[string]bool{}}
 }
 
-func (c *Ctx) rule(id, text string) { c.Rules[id] = text }
+func (c *Ctx) rule(id, text string) {
+	if old, ok := c.Rules[id]; ok && old != text && !strings.Contains(old, text) {
+		text = old + " ‖ " + text
+	}
+	c.Rules[id] = text
+}
 
 func (c *Ctx) add(o Obligation) {
 	key := o.Rule + "|" + o.Construct
